@@ -66,6 +66,8 @@ func main() {
 			c.Family("taproot.matrix", N(150, 15000), matrixCase(ref.FormTaproot))
 			c.Family("tapscript.matrix", N(150, 15000), matrixCase(ref.FormTapscript))
 			c.Family("sign.helpers", N(340, 34000), signCase)
+			c.Family("sign.cosign", N(250, 25000), cosignCase)
+			c.Require("sign.cosign.mixed_hash_types", 50)
 			c.Family("sigcache.api", N(300, 30000), sigCacheAPICase)
 			c.Family("engine.nilmidstates", N(20, 200), nilMidstatesCase)
 			c.Family("oracle.legacy", N(600, 60000), oracleLegacyCase)
